@@ -14,24 +14,18 @@ for f in conf:
         ours["fixed"] += [x for x in theirs.get("fixed", []) if x not in ours["fixed"]]
         json.dump(ours, open(p, "w"), indent=1)
     elif f == "props.py":
+        # keep ours; append every entry that only theirs has as `PROPS["Cxx"] = {...}` at the end of the file
+        import importlib.util, pprint, tempfile
+        def load(txt, name):
+            t = tempfile.NamedTemporaryFile("w", suffix=".py", delete=False); t.write(txt); t.close()
+            spec = importlib.util.spec_from_file_location(name, t.name); m = importlib.util.module_from_spec(spec)
+            spec.loader.exec_module(m); os.unlink(t.name); return m
         ours = sh("git", "show", ":2:" + f); theirs = sh("git", "show", ":3:" + f)
-        def entries(text):
-            out = {}; lines = text.split("\n"); i = 0
-            while i < len(lines):
-                m = re.match(r'    "(C\d\d)": \{', lines[i])
-                if m:
-                    j = i
-                    while not re.match(r'    \},?\s*$', lines[j]): j += 1
-                    out[m.group(1)] = "\n".join(lines[i:j + 1]); i = j + 1
-                else: i += 1
-            return out
-        eo, et = entries(ours), entries(theirs)
-        add = [et[k] for k in sorted(et) if k not in eo]
-        lines = ours.rstrip("\n").split("\n")
-        idx = max(i for i, l in enumerate(lines) if l == "}")
-        lines = lines[:idx] + [a if a.rstrip().endswith(",") else a + "," for a in add] + lines[idx:]
-        text = "\n".join(lines) + "\n"
-        # hook commits / NOT_YET: keep ours
+        mo, mt = load(ours, "po"), load(theirs, "pt")
+        text = ours.rstrip("\n") + "\n"
+        for k in sorted(mt.PROPS):
+            if k not in mo.PROPS:
+                text += "\nPROPS[%r] = %s\n" % (k, pprint.pformat(mt.PROPS[k], width=150, sort_dicts=False))
         open(p, "w").write(text)
     elif f in ("MANIFEST.json",) or f.startswith("evidence/"):
         open(p, "w").write(sh("git", "show", ":2:" + f))
